@@ -154,6 +154,13 @@ def events_for(rng, thorough):
             yield "udq_dq_mul", {"q1": q1, "t1": t1, "d1": 1, "b": bb}, 1.0, \
                 (lambda q1=q1, t1=t1, bb=bb, K1=K1: K1 * dvec(UnitDualQuaternion(SE3(T_of(q1, t1))) * D(bb))), "UnitDualQuaternion*DualQuaternion"
     for (q1, t1) in mots:
+        K1 = math.sqrt(sum(c * c for c in q1))
+
+        def thc(q1=q1, t1=t1, K1=K1):
+            v = dvec(UnitDualQuaternion(SE3(T_of(q1, t1))).conj())
+            return np.r_[K1 * v[:4], 2 * K1 * v[4:]]
+        yield "udqconj", {"q1": q1, "t1": t1, "d1": 1}, 1.0, thc, "UnitDualQuaternion.conj"
+    for (q1, t1) in mots:
         for (q2, t2) in mots:
             K = math.sqrt(sum(c * c for c in q1) * sum(c * c for c in q2))
 
@@ -161,6 +168,48 @@ def events_for(rng, thorough):
                 v = dvec(UnitDualQuaternion(SE3(T_of(q1, t1))) * UnitDualQuaternion(SE3(T_of(q2, t2))))
                 return np.r_[K * v[:4], 2 * K * v[4:]]
             yield "udqmul", {"q1": q1, "t1": t1, "d1": 1, "q2": q2, "t2": t2, "d2": 1}, 1.0, th, "UnitDualQuaternion.*"
+
+
+def symbolic_identities(j):
+    """the polynomial identities proved by EXECUTING THE LIBRARY CODE ON SYMBOLS (four real symbols per quaternion,
+    three per angular velocity): every difference must expand to exactly 0"""
+    import sympy as sp
+    import spatialmath.base as b
+    A, B, C = list(sp.symbols("a0:4", real=True)), list(sp.symbols("b0:4", real=True)), list(sp.symbols("c0:4", real=True))
+    W = list(sp.symbols("w0:3", real=True))
+    O = lambda v: np.asarray(v, dtype=object)          # noqa: E731
+    n2 = lambda q: sum(x * x for x in O(q).ravel())    # noqa: E731
+    idents = {
+        "associativity": lambda: O(b.qqmul(b.qqmul(A, B), C)) - O(b.qqmul(A, b.qqmul(B, C))),
+        "distributivity": lambda: O(b.qqmul(A, [x + y for x, y in zip(B, C)])) - O(b.qqmul(A, B)) - O(b.qqmul(A, C)),
+        "norm-multiplicative": lambda: [n2(b.qqmul(A, B)) - n2(A) * n2(B)],
+        "conj-reverses-products": lambda: O(b.conj(b.qqmul(A, B))) - O(b.qqmul(b.conj(B), b.conj(A))),
+        "q*conj(q)=normsq": lambda: O(b.qqmul(A, b.conj(A))) - np.array([n2(A), 0, 0, 0], dtype=object),
+        "inner=dot-product": lambda: [b.inner(A, B) - sum(x * y for x, y in zip(A, B))],
+        "inner(q,q)=scalar-of-q*conj(q)": lambda: [b.inner(A, A) - O(b.qqmul(A, b.conj(A)))[0]],
+        "matrix-form=left-multiplication": lambda: O(b.matrix(A)) @ O(B) - O(b.qqmul(A, B)),
+        "qpow(3)=q*q*q": lambda: O(b.qpow(A, 3)) - O(b.qqmul(A, b.qqmul(A, A))),
+        "qpow(-2)=conj(q*q)": lambda: O(b.qpow(A, -2)) - O(b.conj(b.qqmul(A, A))),
+        "qpow(0)=1": lambda: O(b.qpow(A, 0)) - np.array([1, 0, 0, 0], dtype=object),
+        "2*dot=pure(w)*q": lambda: 2 * O(b.dot(A, W)) - O(b.qqmul([0] + W, A)),
+        "2*dotb=q*pure(w)": lambda: 2 * O(b.dotb(A, W)) - O(b.qqmul(A, [0] + W)),
+        "qvmul=vector-of-q*v*conj(q)": lambda: O(b.qvmul(A, W)) - O(b.qqmul(b.qqmul(A, [0] + W), b.conj(A)))[1:],
+        "pure": lambda: O(b.pure(W)) - np.array([0] + W, dtype=object),
+    }
+    for name, fn in idents.items():
+        cid = ("symbolic", name)
+        try:
+            res = [sp.expand(x) for x in O(fn()).ravel()]
+        except Exception as ex:  # noqa: BLE001
+            j.fail("%s|symbolic:%s|four-symbols-per-quaternion|library-code-raised-%s-on-symbols" % (PID, name, type(ex).__name__),
+                   {"kind": "symbolic", "identity": name, "error": str(ex)[:200]}, cid)
+            continue
+        if any(x != 0 for x in res):
+            j.fail("%s|symbolic:%s|four-symbols-per-quaternion|identity-does-not-hold" % (PID, name),
+                   {"kind": "symbolic", "identity": name, "residue": [str(x)[:80] for x in res if x != 0][:4]}, cid)
+        else:
+            j.ok(cid, nontrivial=True)
+    return len(idents)
 
 
 def record_events(j, rng, thorough):
@@ -359,6 +408,7 @@ def run(tier):
     thorough = tier == "thorough"
     rng = random.Random(common.seed() + 12)
     rt = run_tlc("MC_ExactQuat", "ExactQuat", workers=1, timeout=900)        # the theorems
+    n_sym = symbolic_identities(j)
     events, meta = record_events(j, rng, thorough)
     rejected, rj = judge_with_tlc(events)
     for k, (site, fn, detail, cid) in enumerate(meta, 1):
@@ -372,7 +422,7 @@ def run(tier):
     exp_log(j, rng, 300 if thorough else 70)
     rx = exp_log_lattice(j, thorough)
     rl = dual_norm(j, rng, thorough)
-    cov = {"states": rj.distinct + rl.distinct + rx.distinct + 1, "transitions": rj.generated + rl.generated + rx.generated,
+    cov = {"identities_executed_on_symbols": n_sym, "states": rj.distinct + rl.distinct + rx.distinct + 1, "transitions": rj.generated + rl.generated + rx.generated,
            "traces_validated_against_impl": n_ev, "theorems_checked_by_tlc": 14,
            "events_judged_by_tlc": n_ev, "events_rejected": len(rejected),
            "lattice_exact": n_ev, "valuation": j.evaluations - n_ev, "checker_cmd": rt.cmd,
